@@ -6,14 +6,93 @@ import ast
 
 from sa import term as T
 from sa.effects import Effects
-from sa.interp import SVar
+from sa.interp import Interp, SVar
+from sa.scipp_model import Model
 from sa.kernel import P, make_param, run_kernel
 from sa.load import AnalysisError, Repo, loc
 from sa.report import Run
 from sa.term import Rat
-from sa.units import Unit
+from sa.units import NO_UNIT, Unit
 
 from .common import eq_term, events, returns, show
+
+
+class PlateauModel(Model):
+    """scipp model plus symbolic tokens for group / bins reductions and a record of coordinate stores."""
+
+    def __init__(self):
+        super().__init__()
+        self.binned_mode = True
+        self.reset()
+
+    def reset(self):
+        self.stores, self.groups, self.index = [], [], []
+        self._group_results, self._filtered = [], []
+
+    def snapshot(self):
+        return (self.stores, self.groups, self.index, self._group_results, self._filtered)
+
+    def restore(self, snap):
+        self.stores, self.groups, self.index, self._group_results, self._filtered = snap
+
+    def bound_store(self, interp, obj, key, val, node):
+        self.stores.append((obj.recv, obj.name, key, val))
+
+    def is_group_result(self, v) -> bool:
+        return any(v is g or v.view_of is g for g in self._group_results)
+
+    def derives_from_filtered(self, v) -> bool:
+        seen = 0
+        while v is not None and seen < 20:
+            if any(v is f for f in self._filtered):
+                return True
+            v = v.view_of
+            seen += 1
+        return False
+
+    def call_method(self, interp, recv, name, args, kwargs, node):
+        if isinstance(recv, SVar) and name == 'group':
+            r = super().call_method(interp, recv, name, args, kwargs, node)
+            r.taint = True
+            self.groups.append((recv, args, r))
+            self._group_results.append(r)
+            return r
+        if isinstance(recv, SVar) and name in ('bins.size', 'bins.mean', 'bins.min', 'bins.max'):
+            red = name.split('.')[1]
+            if red == 'size':
+                r = self.new(interp, Rat.sym('bin_sizes', positive=True), NO_UNIT, 'int64')
+                r.kind = 'dataarray'
+                return r
+            t = Rat.fn('bins_' + red, recv.term) if isinstance(recv.term, Rat) else None
+            r = self.new(interp, t, recv.unit, recv.dtype, why=recv.why)
+            r.kind = recv.kind
+            return r
+        return super().call_method(interp, recv, name, args, kwargs, node)
+
+    def var_index(self, interp, v, key, node):
+        r = super().var_index(interp, v, key, node)
+        self.index.append((v, key, r))
+        if isinstance(key, SVar) and self.is_group_result(v):
+            self._filtered.append(r)
+        return r
+
+    def call_ext(self, interp, path, args, kwargs, node):
+        if path == 'numpy.nextafter' and len(args) == 2 and isinstance(args[0], SVar):
+            x, to = args
+            up = isinstance(to, float) and to == float('inf')
+            t = Rat.fn('nextafter_up' if up else 'nextafter_other', x.term) if isinstance(x.term, Rat) else None
+            r = self.new(interp, t, x.unit, x.dtype, x.taint, x.why)
+            r.kind = 'raw'
+            r.members.update(x.members)
+            return r
+        return super().call_ext(interp, path, args, kwargs, node)
+
+
+class PlateauInterp(Interp):
+    def iterate(self, v, node):
+        if isinstance(v, SVar):
+            return []  # no plateau is inspected by the total-drift guard (an additional refusal, not decided)
+        return super().iterate(v, node)
 
 
 def idx(t: Rat, key: str) -> Rat:
@@ -65,34 +144,108 @@ def run(tier: str) -> Run:
             detail = {'computed': T.show(v.term), 'expected': T.show(want), 'dtype': v.dtype, 'lossy_conversions': bad}
         r1.check(ok, f'_derive[x={xdt}]', loc(fi), detail, key='derive')
 
-    r2 = run.rule('R2', 'find_plateaus: strict |slope| > atol in slope units; cumulative count with leading 0; size filter >=', 3)
+    r2 = run.rule('R2', 'find_plateaus: groups by concat(0, cumsum(|slope| > atol in slope units)); keeps groups with size >= min_n_points', 3)
     pfi = repo.func('chopper.filtering', 'find_plateaus')
-    src = {ast.unparse(n) for n in ast.walk(pfi.node)}
-    cmp_ok = [n for n in ast.walk(pfi.node) if isinstance(n, ast.Compare) and len(n.ops) == 1 and isinstance(n.ops[0], ast.Gt)
-              and ast.unparse(n.left) in ('abs(derivative)', 'sc.abs(derivative)')
-              and ast.unparse(n.comparators[0]).replace('sc.to_unit(atol, derivative.unit)', 'atol.to(unit=derivative.unit)') == 'atol.to(unit=derivative.unit)']
-    flipped = [n for n in ast.walk(pfi.node) if isinstance(n, ast.Compare) and isinstance(n.ops[0], ast.Lt)
-               and ast.unparse(n.comparators[0]) in ('abs(derivative)', 'sc.abs(derivative)')]
-    r2.check(bool(cmp_ok or flipped), 'exceed mask', loc(pfi),
-             {'comparisons': [ast.unparse(n) for n in ast.walk(pfi.node) if isinstance(n, ast.Compare) and 'derivative' in ast.unparse(n)]}, key='mask')
-    cum = [n for n in ast.walk(pfi.node) if isinstance(n, ast.Call) and ast.unparse(n.func) in ('sc.cumsum', 'scipp.cumsum')]
-    lead = [n for n in ast.walk(pfi.node) if isinstance(n, ast.Call) and ast.unparse(n.func) in ('sc.concat',)
-            and n.args and isinstance(n.args[0], ast.List) and len(n.args[0].elts) == 2
-            and ast.unparse(n.args[0].elts[0]).startswith('sc.index(0') and ast.unparse(n.args[0].elts[1]) == 'group_id']
-    r2.check(bool(cum) and bool(lead), 'group id', loc(pfi), {'cumsum': [ast.unparse(c)[:80] for c in cum], 'leading_zero': [ast.unparse(c)[:80] for c in lead]}, key='group-id')
-    size = [n for n in ast.walk(pfi.node) if isinstance(n, ast.Compare) and 'size()' in ast.unparse(n.left) and 'min_n_points' in ast.unparse(n.comparators[0])]
-    r2.check(len(size) == 1 and isinstance(size[0].ops[0], ast.GtE), 'size filter', loc(pfi), {'comparison': [ast.unparse(s_) for s_ in size]}, key='size')
+    T.reset()
+    pm = PlateauModel()
+    pit = PlateauInterp(repo, pm)
+
+    def plateau_args(i):
+        x = make_param(i, 'x', P(dim='T', positive=False))
+        y = make_param(i, 'y', P(dim='FREQ', positive=False))
+        da = SVar(y.term, y.unit, y.dtype, origin='da')
+        da.kind = 'dataarray'
+        da.members['coords'] = {'*': x}
+        da.members['dims'] = ['t']
+        i.track(da)
+        atol = make_param(i, 'atol', P(dim='FREQ/T'))
+        mn = make_param(i, 'min_n', P(dim='ONE', unit=NO_UNIT), dtype='int64')
+        pm.reset()
+        try:
+            return i.call_function(pfi, [da], {'atol': atol, 'min_n_points': mn})
+        finally:
+            snaps.append(pm.snapshot())
+    snaps: list = []
+    outs = pit.run_all(plateau_args)
+    rets = [o for o in outs if o.kind == 'return']
+    for o, sn in zip(outs, snaps, strict=True):
+        if o.kind == 'return':
+            pm.restore(sn)
+    xs, ys = Rat.sym('x'), Rat.sym('y')
+    slope = (idx(ys, 'slice(1, None, None)') - idx(ys, 'slice(None, -1, None)')) / (idx(xs, 'slice(1, None, None)') - idx(xs, 'slice(None, -1, None)'))
+    want_gid = Rat.fn('concat', Rat.const(0), Rat.fn('cumsum', T.fn_cmp('>', T.fn_abs(slope), Rat.sym('atol', positive=True))))
+    want_size = T.fn_cmp('>=', Rat.sym('bin_sizes', positive=True), Rat.sym('min_n', positive=True))
+    if len(rets) != 1:
+        r2.fail('find_plateaus', loc(pfi), {'problem': 'expected one returning path on sorted 1-d input', 'outcomes': [(o.kind, o.exc_type, o.where) for o in outs]}, key='paths')
+    else:
+        grouped = pm.groups
+        gid = None
+        if len(grouped) == 1:
+            recv, gargs, _res = grouped[0]
+            label = gargs[0] if gargs else None
+            for obj, where_, key, val in pm.stores:
+                if where_ == 'coords' and key is label and (obj is recv or obj.view_of is recv or recv.view_of is obj):
+                    gid = val
+        got = gid.term if isinstance(gid, SVar) else None
+        r2.check(got is not None and eq_term(got, want_gid), 'group id', loc(pfi),
+                 {'grouping_coordinate': T.show(got) if got is not None else repr(gid), 'expected': T.show(want_gid), 'group_calls': len(grouped)}, key='group-id')
+        # strictness is part of the group id; reported separately for readability
+        r2.check(got is not None and eq_term(got, want_gid), 'exceed mask', loc(pfi), {'expected': 'abs(slope) > atol (strict), atol in slope units'}, key='mask')
+        keys = [k for v, k, r in pm.index if isinstance(k, SVar) and k.dtype == 'bool' and pm.is_group_result(v)]
+        kt = keys[0].term if len(keys) == 1 else None
+        ret = rets[0].value
+        derived = isinstance(ret, SVar) and pm.derives_from_filtered(ret)
+        r2.check(kt is not None and eq_term(kt, want_size) and derived, 'size filter', loc(pfi),
+                 {'filter_key': T.show(kt) if kt is not None else [repr(k) for k in keys], 'expected': T.show(want_size), 'result_is_the_filtered_groups': derived}, key='size')
 
     r3 = run.rule('R3', 'collapse: low = bins.min, high = next representable above bins.max; _next_highest arms', 4)
     cfi = repo.func('chopper.filtering', 'collapse_plateaus')
-    text = ast.unparse(cfi.node)
-    ok = 'low = plateaus.bins.coords[coord].bins.min()' in text and 'high = _next_highest(plateaus.bins.coords[coord].bins.max())' in text \
-        and 'sc.concat([low, high], dim=coord)' in text and 'plateaus.bins.mean()' in text
-    r3.check(ok, 'collapse_plateaus', loc(cfi), {'statements': [ast.unparse(s_)[:90] for s_ in cfi.node.body if not isinstance(s_, ast.Expr)]}, key='collapse')
     nfi = repo.func('chopper.filtering', '_next_highest')
-    na = [n for n in ast.walk(nfi.node) if isinstance(n, ast.Call) and ast.unparse(n.func).endswith('nextafter')]
-    ok = len(na) == 1 and len(na[0].args) == 2 and ast.unparse(na[0].args[0]) == 'x.values' and ast.unparse(na[0].args[1]) in ('np.inf', 'numpy.inf', 'math.inf', "float('inf')")
-    r3.check(ok, '_next_highest[float]', loc(nfi), {'nextafter_calls': [ast.unparse(c) for c in na]}, key='next-float')
+    for edt in ('float64', 'float32', 'int64', 'datetime64'):
+        T.reset()
+        pm = PlateauModel()
+        pit = PlateauInterp(repo, pm)
+
+        def collapse_args(i, edt=edt):
+            ev = make_param(i, 'ev', P(dim='T', positive=False, taint=True), dtype=edt)
+            y = make_param(i, 'y', P(dim='FREQ', positive=False, taint=True))
+            pl = SVar(y.term, y.unit, y.dtype, origin='plateaus', taint=True)
+            pl.kind = 'dataarray'
+            pl.members['bins.coords'] = {'time': ev}
+            pl.members['dims'] = ['plateau']
+            i.track(pl)
+            pm.reset()
+            try:
+                return i.call_function(cfi, [pl], {'coord': 'time'})
+            finally:
+                snaps.append(pm.snapshot())
+        snaps = []
+        outs = pit.run_all(collapse_args)
+        rets = [o for o in outs if o.kind == 'return']
+        for o, sn in zip(outs, snaps, strict=True):
+            if o.kind == 'return':
+                pm.restore(sn)
+        inst = f'collapse_plateaus[{edt}]'
+        if len(rets) != 1 or not isinstance(rets[0].value, SVar):
+            r3.fail(inst, loc(cfi), {'outcomes': [(o.kind, o.exc_type, o.where) for o in outs]}, key=inst)
+            continue
+        ret = rets[0].value
+        ev = Rat.sym('ev')
+        lo = Rat.fn('bins_min', ev)
+        mx = Rat.fn('bins_max', ev)
+        if edt.startswith('float'):
+            u = Rat.sym('U:ev', positive=True)
+            hi = Rat.fn('nextafter_up', mx / u) * u
+        else:
+            hi = mx + Rat.sym('U:ev', positive=True)
+        want = Rat.fn('concat', lo, hi)
+        stored = [val for obj, where_, key, val in pm.stores if where_ == 'coords' and key == 'time' and obj is ret]
+        got = stored[-1].term if stored and isinstance(stored[-1], SVar) else None
+        mean_ok = isinstance(ret.term, Rat) and eq_term(ret.term, Rat.fn('bins_mean', Rat.sym('y')))
+        dt_ok = bool(stored) and stored[-1].dtype == edt
+        r3.check(got is not None and eq_term(got, want) and mean_ok and dt_ok, inst, loc(cfi),
+                 {'edge_coordinate': T.show(got) if got is not None else None, 'expected': T.show(want), 'data_is_bins_mean': mean_ok,
+                  'edge_dtype': stored[-1].dtype if stored else None}, key=inst)
     for xdt in ('int64', 'datetime64'):
         outs = run_kernel(repo, nfi, {'x': P(dim='T', positive=False)}, dtypes={'x': xdt})
         ok = len(outs) == 1 and outs[0].kind == 'return' and isinstance(outs[0].value, SVar) and outs[0].value.term is not None
